@@ -10,6 +10,11 @@
                 None => false,
                 Some(hs) => forall|i: int| 0 <= i < hs.len() ==> !version_conflict(#[trigger] hs[i], endpoint.versions) || f2(hs[i], endpoint.versions),
             }), // @accepted_only_without_conflict
+            // "indicates whether this router contains any endpoints that are constrained by version" (the server refuses
+            // to serve a versioned table without a version policy, so that no request is routed with version None
+            // to whichever of several version-split endpoints happens to be stored first): the flag is sticky and
+            // is raised by every endpoint whose range is not `All`
+            final(self).has_versioned_routes == (old(self).has_versioned_routes || !(endpoint.versions is All)), // @versioned_routes_flag_is_sticky_and_raised_by_a_versioned_endpoint
             // the representation invariant lookup_route (V10) relies on is maintained
             wf_node(*final(self).root), // @insert_keeps_the_trie_wellformed
             // what the registration does to the trie: the endpoint is appended at the end of its template's path,
